@@ -141,7 +141,8 @@ async def _op(store: Any, typed: bool, kind: int, i: int, t: int, d: int) -> Non
                 s["y"] = y + c
 
 
-def run_concurrently(st: int, typed: bool, kinds: List[int], ts: List[int], ds: List[int], per_task_store: bool = False, churn: int = 0) -> bool:
+def run_concurrently(st: int, typed: bool, kinds: List[int], ts: List[int], ds: List[int], per_task_store: bool = False, churn: int = 0,
+                     shared_conn: bool = False) -> bool:
     init_plain: Dict[str, Any] = {"a": None, "b": [], "c": {}, "n": 7} if typed else {"x": 0, "y": 0}
     with SqliteEnv() as env:
         if st == ST_MEM:
@@ -153,6 +154,17 @@ def run_concurrently(st: int, typed: bool, kinds: List[int], ts: List[int], ds: 
         # per_task_store: every task works through its OWN store object for the run, which is what steps of one run get from the server
         # runtime over a SQLite workflow store (one create_state_store(run_id) per step invocation's adapter)
         stores = [env.store(TChild if typed else None) if (per_task_store and st == ST_SQL) else store for _ in kinds]
+        if shared_conn and per_task_store and st == ST_SQL:
+            # the AgentCore configuration: one SqliteWorkflowStore(single_connection=True) hands its connection to every state store it creates
+            from llama_agents.server._store.sqlite.sqlite_workflow_store import SqliteWorkflowStore
+
+            import os
+
+            # its own database file, created by the store's own migrations through the lock-free connection
+            ws = SqliteWorkflowStore(os.path.join(os.path.dirname(env.db), "single.db"), single_connection=True)
+            stores = [ws.create_state_store("run-1", TChild if typed else None) for _ in kinds]
+            store = ws.create_state_store("run-1", TChild if typed else None)
+            drive(store.set_state(TChild() if typed else DictState(x=0, y=0)))
 
         async def late_store(i: int) -> Any:
             """churn > 0: the i-th task's store object is only created when the task starts (a step invocation's adapter is), and before
@@ -211,8 +223,8 @@ def ob_two_tasks(st: int, typed: int, k0: int, k1: int, t0: int, t1: int, d0: in
             what="SQLite store, two concurrent tasks that each reach the run's state through their OWN SqliteStateStore object (the server "
                  "runtime creates one per step invocation: SqliteWorkflowStore.create_state_store(run_id)): the final state equals one of "
                  "the 2 serial results",
-            bounds={"store": "SqliteStateStore x 2 objects, one database, one run; optionally 300 other runs active in between", "op kinds": "3 / 4", "instants": "0..TMAX (2 / 3)"})
-def ob_two_store_objects(k0: int, k1: int, t0: int, t1: int, d0: int, d1: int, busy: bool = False) -> bool:
+            bounds={"store": "SqliteStateStore x 2 objects, one database, one run; optionally 300 other runs active in between; optionally both on the one connection of a single_connection=True workflow store", "op kinds": "3 / 4", "instants": "0..TMAX (2 / 3)"})
+def ob_two_store_objects(k0: int, k1: int, t0: int, t1: int, d0: int, d1: int, busy: bool = False, shared: bool = False) -> bool:
     """
     pre: 0 <= k0 < NOPS and 0 <= k1 < NOPS
     pre: 0 <= t0 <= TMAX and 0 <= t1 <= TMAX and 0 <= d0 <= TMAX and 0 <= d1 <= TMAX
@@ -223,9 +235,11 @@ def ob_two_store_objects(k0: int, k1: int, t0: int, t1: int, d0: int, d1: int, b
     ts = [cint(t0, 0, 3), cint(t1, 0, 3)]
     ds = [cint(d0, 0, 3), cint(d1, 0, 3)]
     busy = True if busy else False
+    shared = True if shared else False
     with untraced():
         # busy: a few hundred other runs of the database use their state between the two tasks' store objects being created
-        return run_concurrently(ST_SQL, False, kinds, ts, ds, per_task_store=True, churn=(300 if busy else 0))
+        # shared: the two objects come from one SqliteWorkflowStore(single_connection=True) and use its connection
+        return run_concurrently(ST_SQL, False, kinds, ts, ds, per_task_store=True, churn=(300 if busy and not shared else 0), shared_conn=shared)
 
 
 @obligation(quick=150, thorough=300, partitions_quick=[f"st == {s}" for s in (0, 1)],
